@@ -80,7 +80,7 @@ def receiver_extraction_rule(ctx, r6):
     a_, b_ = (maps["common::fdtinstance::File::get_oti"][0], maps[FDTI + "::get_oti"][0])
     for n_ in sorted(a_):
         key = "File::get_oti / FdtInstance::get_oti agree on Oti.%s" % n_
-        if a_[n_][0] == b_.get(n_, (None,))[0]:
+        if a_[n_][0] == b_.get(n_, (None,))[0] or (n_ in b_ and show(norm_unwrap(a_[n_][2]), 600) == show(norm_unwrap(b_[n_][2]), 600)):
             r6.ok(key, "", loc(maps[FDTI + "::get_oti"][1].sp))
         else:
             r6.violation(key, "File: %s ; FdtInstance: %s" % (a_[n_][0][:100], b_.get(n_, ("?",))[0][:100]), loc(maps[FDTI + "::get_oti"][1].sp))
@@ -241,6 +241,13 @@ def run(ctx):
         arg = s.expr[2][3]
         key = "publish FileDesc::new fdt_id argument"
         pre = all(flow.dominates(s.bb, a["bb"]) and s.bb != a["bb"] for a in incs)
+        # the id may have been read into a local first (`let instance_id = self.fdtid;`): then the read is where that local is defined
+        if arg[0] == "aggr" and arg[2] == "Some" and len(arg[3]) == 1 and arg[3][0][0] == "var" and not arg[3][0][2] and show(sl.expand(arg)) == "Option::Some{0: self.fdtid}":
+            rd = [bb_ for (pj_, e_, bb_) in sl.var_defs().get(arg[3][0][1], []) if pj_ == ""]
+            if len(rd) == 1 and all(flow.dominates(rd[0], a["bb"]) for a in incs) and \
+                    not any(a["bb"] == rd[0] for a in incs):
+                arg = sl.expand(arg)
+                pre = True
         if show(arg) == "Option::Some{0: self.fdtid}" and pre:
             r1.ok(key, "Some(self.fdtid) read before the increment", s.loc)
         else:
